@@ -213,6 +213,12 @@ impl<'a> GeneratorState<'a> {
                                 } else if self.bankswitching_scheme == "3E" {
                                     if self.current_bank == 0 {
                                         // Generate bankswitching call
+                                        if !self.compiler_state.variables.contains_key("ROM_SELECT") {
+                                            return Err(self.compiler_state.syntax_error(
+                                                "A call into another bank needs a variable named ROM_SELECT",
+                                                pos,
+                                            ));
+                                        }
                                         self.asm(
                                             LDA,
                                             &ExprType::Immediate((f.bank - 1) as i32),
@@ -233,6 +239,12 @@ impl<'a> GeneratorState<'a> {
                                 {
                                     // Generate bankswitching call
                                     if self.bankswitching_scheme.starts_with("SuperGame") {
+                                        if !self.compiler_state.variables.contains_key("ROM_SELECT") {
+                                            return Err(self.compiler_state.syntax_error(
+                                                "A call into another bank needs a variable named ROM_SELECT",
+                                                pos,
+                                            ));
+                                        }
                                         self.asm(
                                             LDA,
                                             &ExprType::Immediate((f.bank - 1) as i32),
